@@ -308,6 +308,31 @@ pub fn families() -> Vec<Box<dyn Family>> {
             },
         ),
         family(
+            "long_texts",
+            "long line texts (150..5000 lines; every 12th case above 65536 lines; vocabulary 3 / 40 / unique; <= 12 scattered line edits) x {lines, words, diff_slices} x {Myers, Patience} x {str,[u8]} x overrides: far above the integer-mapping threshold",
+            false,
+            1,
+            |cfg| cfg.n(24, 400),
+            |idx, cfg, out| {
+                let mut rng = Rng::for_case(cfg.seed, "c14.long_texts", idx);
+                let n = if cfg.tiny {
+                    5
+                } else if idx % 12 == 5 {
+                    rng.range(65_537, 67_000)
+                } else {
+                    *rng.pick(&[150usize, 255, 256, 257, 1000, 5000])
+                };
+                let (a, b) = text_gen::long_text_pair(&mut rng, n, 12);
+                out.sample(|| format!("{} lines; old starts {}", n, show(&a[..a.len().min(60)])));
+                out.nontrivial(&(&a, &b));
+                if n > 65_536 {
+                    out.count("texts_above_65536_tokens");
+                }
+                let toks: Vec<usize> = if n > 6000 { vec![0, 5] } else { vec![0, 1, 5] };
+                text_case(&a, &b, &toks, &[Algorithm::Myers, Algorithm::Patience], out);
+            },
+        ),
+        family(
             "identify_distinct",
             "IdentifyDistinct::<u8|u16|u32|u64|usize> over seeded random pairs (<= 60 items, alphabets 1..50; u8 only with <= 200 distinct items) with random NON-ZERO sub-range offsets: ids equal <=> items equal within and across sides, ranges preserved, diff through the lookups == diff of the original sub-ranges x 3 algorithms; items repeated only on the new side included",
             false,
